@@ -8,4 +8,9 @@ require (
 	pgregory.net/rapid v1.3.0
 )
 
+require (
+	github.com/google/uuid v1.3.0 // indirect
+	golang.org/x/text v0.7.0 // indirect
+)
+
 replace github.com/whatap/golib => /repo
